@@ -524,7 +524,8 @@ def check(pid, conf, tier, seed, workdir, replay, t0):
           "assumptions": conf.get("assumptions", []), "wall_s": round(wall, 2), "violations": len(violations)}
     # evidence describes runs against /repo itself; a run against a scratch copy (VERIF_REPO, mutation trials) keeps its
     # record under .work so that it never replaces the evidence of the real tree
-    evdir = os.path.join(VERIF, "evidence") if os.path.abspath(REPO) == "/repo" else os.path.join(WORK, "evidence-scratch")
+    # (a replay evaluates one case: its record does not replace the evidence of a full run either)
+    evdir = os.path.join(VERIF, "evidence") if os.path.abspath(REPO) == "/repo" and not replay else os.path.join(WORK, "evidence-scratch")
     os.makedirs(evdir, exist_ok=True)
     json.dump(ev, open(os.path.join(evdir, pid + ".json"), "w"), indent=1, ensure_ascii=False)
 
